@@ -490,6 +490,33 @@ def main():
     boolean("rumorIdRecomputed", cleared or verified,
             "messages/application.rs process_application_message: the rumor id is cleared (recomputed) or verified before `rumor.id()` is used as the storage key")
 
+    # ---- C06 / C05: the order of the checks in auto_commit_proposal and in process_commit (repairs 0339cde, e46593e) ----
+    prop_rs = strip_comments(non_test(read("crates/mdk-core/src/messages/proposal.rs")))
+    acp = fn_body(prop_rs, "auto_commit_proposal", "fn:auto_commit_proposal")
+    m_store = re.search(r"\.\s*store_pending_proposal\s*\(\s*self\s*\.\s*provider\s*\.\s*storage\s*\(\s*\)", acp)
+    i_commit = acp.find("commit_to_pending_proposals")
+    if not m_store or i_commit < 0 or m_store.start() > i_commit:
+        raise Missing("fact:autoCommitChecksBeforeStore")
+    head = acp[:m_store.start()]
+    guard_pending = bool(re.search(r"pending_commit\s*\(\s*\)\s*\.\s*is_some\s*\(\s*\)", head))
+    guard_own = bool(re.search(r"Proposal::Remove", head)) and bool(re.search(r"own_leaf_index", head))
+    keeps = bool(re.search(r"PendingProposal", head)) and bool(re.search(r"\breturn\b", head)) and bool(re.search(r"store_pending_proposal", head))
+    boolean("autoCommitChecksBeforeStore", guard_pending and guard_own and keeps,
+            "messages/proposal.rs auto_commit_proposal: BEFORE the proposal is put into the OpenMLS store for the automatic commit, a pending commit and a queued "
+            "Remove of the own leaf are checked for, and in that case the proposal is kept as a pending proposal (PendingProposal) instead "
+            "(false = stored first, commit_to_pending_proposals fails afterwards: Unprocessable with the proposal left in the store)")
+    commit_rs = strip_comments(non_test(read("crates/mdk-core/src/messages/commit.rs")))
+    pcb = fn_body(commit_rs, "process_commit", "fn:process_commit")
+    i_merge = pcb.find("merge_staged_commit")
+    i_evict = pcb.find("handle_local_member_eviction")
+    if i_merge < 0 or i_evict < i_merge:
+        raise Missing("fact:evictionFromStagedCommit")
+    m_sr = re.search(r"let\s+(\w+)\s*=\s*staged_commit\s*\.\s*self_removed\s*\(\s*\)\s*;", pcb[:i_merge])
+    used = bool(m_sr) and bool(re.search(r"\bif\s+[^{]*\b" + re.escape(m_sr.group(1)) + r"\b[^{]*\{", pcb[i_merge:i_evict]))
+    boolean("evictionFromStagedCommit", used,
+            "messages/commit.rs process_commit: whether the commit removes the receiver is read off the staged commit (self_removed()) BEFORE merge_staged_commit and "
+            "decides the eviction (false = decided by own_leaf().is_none() after the merge only, which a newcomer on the freed leaf defeats)")
+
     # ---- C14: tracing sites / error formats / Debug impls go to their own file GeneratedLeak.lean ----
     sys.path.insert(0, os.path.dirname(os.path.abspath(__file__)))
     import gen_leak
